@@ -498,6 +498,11 @@ class Server(object):
         else:
             attrs = dict(common)
             attrs["from"] = jid
+            carrier = getattr(self, "carriers", {}).get(mid)
+            if carrier is not None:
+                # delivered as a status / broadcast-list stanza: the chat is the list, the author travels as participant
+                attrs["from"] = carrier
+                attrs["participant"] = jid
             self._queue_message(to, N("message", attrs, [clone(c) for c in direct]), mid)
 
     def _queue_message(self, target, node, mid):
